@@ -440,14 +440,178 @@ def _child(spec: dict) -> dict:  # noqa: C901, PLR0915, PLR0912
     }
 
 
-def main() -> None:
-    spec = json.loads(sys.argv[1])
+def _safe_child(spec: dict) -> dict:
     try:
-        res = _child(spec)
+        return _child(spec)
     except BaseException as e:  # noqa: BLE001
         import traceback
 
-        res = {"harness_error": f"{type(e).__name__}: {e}", "tb": traceback.format_exc()[-2000:]}
+        return {"harness_error": f"{type(e).__name__}: {e}", "tb": traceback.format_exc()[-2000:]}
+
+
+def _template(repo: str, timeout: float) -> None:
+    """Template process: imports everything once, then forks one pristine child per session.
+
+    The template never creates a loop, reactor, screen or signal handler, so a forked child is in the same
+    state as a freshly started interpreter that has finished its imports.  Protocol: one JSON spec per stdin
+    line -> one '@@RESULT <json>' or '@@TIMEOUT' line on stdout.
+    """
+    import select
+    import signal
+    import time
+
+    sys.path.insert(0, repo)
+    import asyncio  # noqa: F401
+    import pty  # noqa: F401
+
+    import tornado.ioloop  # noqa: F401
+    import trio  # noqa: F401
+    import twisted.internet.error  # noqa: F401
+    import urwid
+    import urwid.display.raw  # noqa: F401
+    import zmq  # noqa: F401
+
+    for name in ("TornadoEventLoop", "TwistedEventLoop", "TrioEventLoop", "ZMQEventLoop", "AsyncioEventLoop"):
+        getattr(urwid, name)
+    proto = os.fdopen(os.dup(1), "w")
+    devnull = os.open(os.devnull, os.O_RDWR)
+    os.dup2(devnull, 1)  # anything urwid / a loop library prints must not corrupt the protocol stream
+    proto.write("@@READY\n")
+    proto.flush()
+    for line in sys.stdin:
+        line = line.strip()
+        if not line:
+            continue
+        spec = json.loads(line)
+        r, w = os.pipe()
+        pid = os.fork()
+        if pid == 0:
+            try:
+                os.close(r)
+                os.dup2(devnull, 0)
+                data = json.dumps(_safe_child(spec)).encode()
+                off = 0
+                while off < len(data):
+                    off += os.write(w, data[off : off + 65536])
+            finally:
+                os._exit(0)
+        os.close(w)
+        buf = bytearray()
+        deadline = time.monotonic() + timeout
+        timed_out = False
+        while True:
+            rl, _, _ = select.select([r], [], [], max(0.0, deadline - time.monotonic()))
+            if not rl:
+                timed_out = True
+                os.kill(pid, signal.SIGKILL)
+                break
+            chunk = os.read(r, 1 << 16)
+            if not chunk:
+                break
+            buf += chunk
+        os.close(r)
+        _, status = os.waitpid(pid, 0)
+        if timed_out:
+            proto.write("@@TIMEOUT\n")
+        elif not buf:
+            proto.write(MARK + json.dumps({"harness_error": f"forked child died status={status}"}) + "\n")
+        else:
+            proto.write(MARK + buf.decode() + "\n")
+        proto.flush()
+
+
+class Pool:
+    """N template processes; run(specs) plays every spec in a child forked from one of them."""
+
+    def __init__(self, repo: str, n: int = 16, timeout: float = 30.0) -> None:
+        env = dict(os.environ, PYTHONHASHSEED="0", PYTHONDONTWRITEBYTECODE="1", TERM="xterm")
+        self.timeout = timeout
+        self.procs = [
+            subprocess.Popen(  # noqa: S603
+                [PY, "-B", "-m", "vmon.monitors.pty_term", "--template", repo, str(timeout)],
+                cwd=VERIF,
+                env=env,
+                stdin=subprocess.PIPE,
+                stdout=subprocess.PIPE,
+                stderr=subprocess.DEVNULL,
+                text=True,
+            )
+            for _ in range(n)
+        ]
+        self.ready = [False] * n
+
+    def _one(self, i: int, spec: dict):
+        import select as _select
+
+        p = self.procs[i]
+        if p.poll() is not None:
+            return {"harness_error": f"template process exited rc={p.returncode}"}
+        try:
+            if not self.ready[i]:
+                p.stdout.readline()
+                self.ready[i] = True
+            p.stdin.write(json.dumps(spec) + "\n")
+            p.stdin.flush()
+            rl, _, _ = _select.select([p.stdout], [], [], self.timeout + 15.0)
+            if not rl:
+                p.kill()
+                return None
+            line = p.stdout.readline()
+        except (OSError, ValueError) as e:
+            return {"harness_error": f"template io: {e}"}
+        if line.startswith("@@TIMEOUT"):
+            return None
+        if line.startswith(MARK):
+            res = json.loads(line[len(MARK) :])
+            res.setdefault("rc", 0)
+            res.setdefault("stderr_tail", "")
+            return res
+        return {"harness_error": f"template protocol: {line[:200]!r}"}
+
+    def run(self, specs: list) -> list:
+        import queue
+        import threading
+
+        q: queue.Queue = queue.Queue()
+        for n, s in enumerate(specs):
+            q.put((n, s))
+        out = [None] * len(specs)
+
+        def worker(i: int) -> None:
+            while True:
+                try:
+                    n, s = q.get_nowait()
+                except queue.Empty:
+                    return
+                out[n] = self._one(i, s)
+
+        ths = [threading.Thread(target=worker, args=(i,)) for i in range(len(self.procs))]
+        for t in ths:
+            t.start()
+        for t in ths:
+            t.join()
+        return out
+
+    def close(self) -> None:
+        for p in self.procs:
+            try:
+                p.stdin.close()
+            except OSError:
+                pass
+        for p in self.procs:
+            try:
+                p.wait(timeout=5)
+            except subprocess.TimeoutExpired:
+                p.kill()
+                p.wait()
+
+
+def main() -> None:
+    if sys.argv[1] == "--template":
+        _template(sys.argv[2], float(sys.argv[3]))
+        os._exit(0)
+    spec = json.loads(sys.argv[1])
+    res = _safe_child(spec)
     sys.stdout.write(MARK + json.dumps(res) + "\n")
     sys.stdout.flush()
     os._exit(0)
